@@ -361,35 +361,27 @@ inductive Operation
 inductive Cmd | rc | rdi | rh | ri | wc | wr | sleep | sid | repeat | date | scan | ping
   deriving DecidableEq, Repr
 
-def cmdOf (name : List Char) : Option Cmd :=
-  let s := String.ofList name
-  if s = "rc" ∨ s = "readCoil" ∨ s = "readCoils" then some .rc
-  else if s = "rdi" ∨ s = "readDiscreteInput" ∨ s = "readDiscreteInputs" then some .rdi
-  else if s = "rh" ∨ s = "readHoldingRegister" ∨ s = "readHoldingRegisters" then some .rh
-  else if s = "ri" ∨ s = "readInputRegister" ∨ s = "readInputRegisters" then some .ri
-  else if s = "wc" ∨ s = "writeCoil" then some .wc
-  else if s = "wr" ∨ s = "writeRegister" then some .wr
-  else if s = "sleep" then some .sleep
-  else if s = "suid" ∨ s = "setUnitId" ∨ s = "sid" then some .sid
-  else if s = "repeat" then some .repeat
-  else if s = "date" then some .date
-  else if s = "scan" then some .scan
-  else if s = "ping" then some .ping
-  else none
+/-- the `case` labels of the argument `switch`, in source order -/
+def cmdTable : List (String × Cmd) :=
+  [("rc", .rc), ("readCoil", .rc), ("readCoils", .rc),
+   ("rdi", .rdi), ("readDiscreteInput", .rdi), ("readDiscreteInputs", .rdi),
+   ("rh", .rh), ("readHoldingRegister", .rh), ("readHoldingRegisters", .rh),
+   ("ri", .ri), ("readInputRegister", .ri), ("readInputRegisters", .ri),
+   ("wc", .wc), ("writeCoil", .wc),
+   ("wr", .wr), ("writeRegister", .wr),
+   ("sleep", .sleep),
+   ("suid", .sid), ("setUnitId", .sid), ("sid", .sid),
+   ("repeat", .repeat), ("date", .date), ("scan", .scan), ("ping", .ping)]
+
+def cmdOf (name : List Char) : Option Cmd := cmdTable.lookup (String.ofList name)
 
 /-- the type table of rh / ri -/
-def regTyOf (t : List Char) : Option RegTy :=
-  let s := String.ofList t
-  if s = "uint16" then some .uint16
-  else if s = "int16" then some .int16
-  else if s = "uint32" then some .uint32
-  else if s = "int32" then some .int32
-  else if s = "float32" then some .float32
-  else if s = "uint64" then some .uint64
-  else if s = "int64" then some .int64
-  else if s = "float64" then some .float64
-  else if s = "bytes" then some .bytes
-  else none
+def regTyTable : List (String × RegTy) :=
+  [("uint16", .uint16), ("int16", .int16), ("uint32", .uint32), ("int32", .int32),
+   ("float32", .float32), ("uint64", .uint64), ("int64", .int64), ("float64", .float64),
+   ("bytes", .bytes)]
+
+def regTyOf (t : List Char) : Option RegTy := regTyTable.lookup (String.ofList t)
 
 /-- the type table of wr: the rh / ri types plus `string` -/
 inductive WrTy | reg (t : RegTy) | string
@@ -644,12 +636,12 @@ def Outcome.requests : Outcome → List (Byte × Op)
 
 def hexDigit (d : Nat) : Char := if d < 10 then Char.ofNat (48 + d) else Char.ofNat (87 + d)
 
-def natDigits (b : Nat) (n : Nat) : List Nat :=
-  if h : n < b ∨ b < 2 then [n] else natDigits b (n / b) ++ [n % b]
-termination_by n
-decreasing_by
-  have : ¬ (n < b ∨ b < 2) := h
-  exact Nat.div_lt_self (by omega) (by omega)
+def natDigitsAux (b : Nat) : Nat → Nat → List Nat
+  | 0, n => [n]
+  | fuel + 1, n => if n < b ∨ b < 2 then [n] else natDigitsAux b fuel (n / b) ++ [n % b]
+
+/-- digits of `n` in base `b`, most significant first -/
+def natDigits (b : Nat) (n : Nat) : List Nat := natDigitsAux b n n
 
 /-- `%0<w>x` -/
 def hexPad (w n : Nat) : String :=
